@@ -124,6 +124,8 @@ Proof.
   apply rd_same in E1. eapply eq2_trans; [exact E1|]. clear E1.
   destruct (snd c) as [neg iw v|fw bits|v|text data bytes|text hdr arr cap chunks|indef data al elems|indef data al pairs|v ch];
     try discriminate H.
+  apply bind_inv in H. destruct H as (u0 & w0 & E0 & H).
+  apply chunk_assert_inv in E0. destruct E0 as (A0 & B0 & _). eapply eq2_trans; [exact (conj A0 B0)|]. clear A0 B0.
   apply bind_inv in H. destruct H as (u & w2 & E2 & H).
   apply touch_same in E2. eapply eq2_trans; [exact E2|]. clear E2.
   apply bind_inv in H. destruct H as (st & w3 & E3 & H). destruct st as [[d' c']|].
